@@ -38,6 +38,7 @@ import GoImap.Model.ClientParse
 import GoImap.Lemmas.ClientParseHoare
 import GoImap.Lemmas.ClientParseCost
 import GoImap.Lemmas.ClientParseFuel
+import GoImap.Lemmas.ClientParseInvalid
 namespace GoImap.C11
 open GoImap GoImap.ClientParse
 
@@ -47,7 +48,7 @@ open GoImap GoImap.ClientParse
 theorem clientParse_good (tag : Bytes) (kind : Kind) (inp : Bytes) :
     (clientParse {} tag kind inp).dec ≠ .panic ∧
     (clientParse {} tag kind inp).maxDepth ≤ maxListDepth ∧
-    (∀ n ∈ (clientParse {} tag kind inp).delivered, n ≠ 0) ∧
+    (∀ n ∈ (clientParse {} tag kind inp).delivered, n ≠ 0 ∧ n < NumSet.W) ∧
     (∀ s, (clientParse {} tag kind inp).all = some s → StaticSet s) ∧
     (∀ s, (clientParse {} tag kind inp).src = some s → StaticSet s) ∧
     (∀ s, (clientParse {} tag kind inp).dst = some s → StaticSet s) ∧
@@ -86,7 +87,7 @@ theorem depth_bounded (tag : Bytes) (kind : Kind) (inp : Bytes) :
 /-- **invalid_is_error (numbers).** A message number 0 is never handed to the caller (SORT and
     THREAD results, FETCH and EXPUNGE sequence numbers): the response carrying it is an error. -/
 theorem delivered_nonzero (tag : Bytes) (kind : Kind) (inp : Bytes) :
-    ∀ n ∈ (clientParse {} tag kind inp).delivered, n ≠ 0 :=
+    ∀ n ∈ (clientParse {} tag kind inp).delivered, n ≠ 0 ∧ n < NumSet.W :=
   (clientParse_good tag kind inp).2.2.1
 
 /-- **invalid_is_error (sets).** A set handed to the caller (SEARCH / ESEARCH ALL result,
@@ -178,6 +179,57 @@ theorem searchLoop_cost_linear (fuel : Nat) (d d' : Dec)
     (h : searchLoop true fuel d = .ok () d' ∨ searchLoop true fuel d = .err d') :
     d'.cost ≤ d.cost + 4 * d.inp.length + 8 :=
   searchLoop_cost fuel d d' h
+
+/-! ### invalid_is_error, as one statement -/
+
+/-- **invalid_is_error.**  For every input, the repaired reader ends in a real outcome (no panic,
+    no fuel artefact) and hands over nothing that violates a protocol invariant:
+    every message number handed over is a non-zero 32-bit number; every set handed over
+    (SEARCH / ESEARCH ALL, COPYUID) is canonical and without "*"; no tree handed over, and no
+    recursion, is deeper than the decoder's limit.  And this is so because each reader answers the
+    offending element with an error, whatever state it is in: a 0 in SORT / SEARCH / THREAD /
+    FETCH, a "*" in a COPYUID set, one level of nesting too many, a number that does not fit
+    (an accepted number is always in range), a literal with a malformed header (in an astring
+    and in a discarded value).  The concrete streams below are instances. -/
+theorem invalid_is_error :
+    -- nothing invalid is handed over, whatever the input
+    (∀ (tag : Bytes) (kind : Kind) (inp : Bytes),
+      (clientParse {} tag kind inp).dec ≠ .panic ∧ (clientParse {} tag kind inp).dec ≠ .nofuel ∧
+      (∀ n ∈ (clientParse {} tag kind inp).delivered, n ≠ 0 ∧ n < NumSet.W) ∧
+      (∀ s, ((clientParse {} tag kind inp).all = some s ∨ (clientParse {} tag kind inp).src = some s ∨
+          (clientParse {} tag kind inp).dst = some s) → StaticSet s) ∧
+      (clientParse {} tag kind inp).deliveredDepth ≤ maxListDepth ∧
+      (clientParse {} tag kind inp).maxDepth ≤ maxListDepth) ∧
+    -- message number 0 is an error in every reader
+    (∀ fuel d d1 d2, sp d = .ok true d1 → expectNumber d1 = .ok 0 d2 → sortLoop true (fuel + 1) d = .err d2) ∧
+    (∀ fuel d d1 d2 d3, sp d = .ok true d1 → special 40 d1 = .ok false d2 → expectNumber d2 = .ok 0 d3 →
+      searchLoop true (fuel + 1) d = .err d3) ∧
+    (∀ sub t d d1, t.hasSub = false → number d = .ok (some 0) d1 → threadItem true sub t d = .err d1) ∧
+    (∀ fuel d, handleFetch fuel {} 0 d = .err d) ∧
+    -- an open-ended set is an error
+    (∀ d d1 d2 d3 d4 d5 v b1 b2 s t, expectNumber d = .ok v d1 → expectSP d1 = .ok () d2 →
+      expectNumSet d2 = .ok (b1, s) d3 → expectSP d3 = .ok () d4 → expectNumSet d4 = .ok (b2, t) d5 →
+      (b1 || b2) = true → readCopyUID d = .err d5) ∧
+    -- one level of nesting too many is an error
+    (∀ depth d, maxListDepth ≤ depth + 1 → ∃ d', enter depth d = .err d') ∧
+    -- a number that is accepted fits its type
+    (∀ d d' n, expectNumber d = .ok n d' → n < 4294967296) ∧
+    (∀ d d' n, expectNumber64 d = .ok n d' → n < 9223372036854775808) ∧
+    (∀ d d' n, expectModSeq d = .ok n d' → n < 18446744073709551616) ∧
+    -- a literal with a malformed header is an error
+    (∀ d d1 d', special 123 d = .ok true d1 → literal d = .ok none d' → d'.errSet = true) ∧
+    (∀ d d1 d2, quoted d = .ok none d1 → literal d1 = .ok none d2 → d2.errSet = true →
+      d2.cfg.strictLiteral = true → expectAString d = .err d2) ∧
+    (∀ fuel depth d d1, string d = .ok none d1 → d1.errSet = true → d1.cfg.strictLiteral = true →
+      discardValue (fuel + 1) depth d = .err d1) := by
+  refine ⟨?_, sortLoop_zero, searchLoop_zero, threadItem_zero, handleFetch_zero, readCopyUID_dynamic,
+    enter_limit, expectNumber_range, expectNumber64_range, expectModSeq_range, literal_soft,
+    expectAString_badLiteral, discardValue_badLiteral⟩
+  intro tag kind inp
+  have g := clientParse_good tag kind inp
+  refine ⟨g.1, fuel_suffices {} tag kind inp, g.2.2.1, ?_, g.2.2.2.2.2.2, g.2.1⟩
+  intro s hs
+  exact delivered_sets_static tag kind inp s hs
 
 /-! ### instances of `invalid_is_error`, and the behaviour before the repairs -/
 
